@@ -4,6 +4,44 @@ From LE Require Import RMT.Root RMT.Append RMT.AppendProofs RMT.Proof RMT.NodePr
 Import ListNotations.
 Local Open Scope N_scope.
 
+Section ValidIdx.
+  Variable n : N.
+  Hypothesis Hok : size_ok n.
+  Notation Hh := (get_height n).
+
+  (* the index check of VerifyProof: accepted indexes are 0 or indexes of nodes of the tree *)
+  Lemma valid_idx_node : forall Z, valid_idx n Z = true -> exists k i, vnode n k i /\ Z = nidx Hh k i.
+  Proof.
+    intros Z Hv. unfold valid_idx, new_loc in Hv.
+    destruct ((Z <? 2) || (2 ^ 63 <=? Z)) eqn:E1; [discriminate|].
+    apply orb_false_iff in E1. destruct E1 as [E1 _]. apply N.ltb_ge in E1.
+    set (k0 := N.size Z - 1) in *.
+    destruct (2 ^ 31 <=? Z - 2 ^ k0); [discriminate|].
+    destruct (N.ltb_spec Hh k0) as [|Hk0]; [discriminate|].
+    apply N.leb_le in Hv.
+    pose proof (N.size_gt Z) as Hgt. pose proof (N.size_le Z) as Hle. rewrite N.succ_double_spec in Hle.
+    assert (Hs2 : 2 <= N.size Z).
+    { destruct (N.le_gt_cases 2 (N.size Z)) as [|Hlt]; [assumption|]. exfalso.
+      assert (2 ^ N.size Z <= 2 ^ 1) by (apply N.pow_le_mono_r; lia). change (2 ^ 1) with 2 in *. lia. }
+    assert (Hsz : N.size Z = k0 + 1) by (unfold k0; lia).
+    rewrite Hsz in Hgt, Hle. rewrite N.add_1_r, N.pow_succ_r' in Hgt, Hle.
+    assert (Hk1 : 1 <= k0) by (unfold k0; lia).
+    destruct (height_facts n Hok) as [Hh1 Hn]. destruct Hok as [Hn1 _].
+    exists (Hh - k0), (Z - 2 ^ k0). split; [split|].
+    - lia.
+    - pose proof (N.mul_div_le (n - 1) (2 ^ (Hh - k0)) ltac:(apply N.pow_nonzero; lia)) as M.
+      set (p := 2 ^ (Hh - k0)) in *. set (d := (n - 1) / p) in *. nia.
+    - unfold nidx. replace (Hh - (Hh - k0)) with k0 by lia. lia.
+  Qed.
+
+  (* ... and the index check accepts every index of a node of the tree (used by the completeness theorems) *)
+  Lemma node_valid_idx : forall k i, vnode n k i -> valid_idx n (nidx Hh k i) = true.
+  Proof.
+    intros k i Hv. unfold valid_idx. rewrite (new_loc_nidx n Hok k i Hv). apply N.leb_le.
+    destruct Hv as [_ Hi]. apply N.div_le_lower_bound; [apply N.pow_nonzero; lia|]. lia.
+  Qed.
+End ValidIdx.
+
 Section Top.
   Variable n : N.
   Hypothesis Hok : size_ok n.
@@ -57,36 +95,45 @@ Section Top.
   (* every claim is about a leaf of the tree (or is the ignored index 0) *)
   Definition leaf_claims (idxs : list N) : Prop :=
     forall idx, In idx idxs -> idx = 0 \/ exists pos, pos < n /\ idx = leaf_idx pos.
+  (* every claim is about some node of the tree: leaf, branch or pass-through node (or is the ignored index 0) *)
+  Definition node_claims (idxs : list N) : Prop :=
+    forall idx, In idx idxs -> idx = 0 \/ exists k i, vnode n k i /\ idx = nidx Hh k i.
 
   Definition claims_true (qs : list Hsh) (idxs : list N) : Prop :=
     forall j pos q, nth_error idxs j = Some (leaf_idx pos) -> pos < n -> nth_error qs j = Some q -> q = nval 0 pos.
+  Definition node_claims_true (qs : list Hsh) (idxs : list N) : Prop :=
+    forall j k i q, nth_error idxs j = Some (nidx Hh k i) -> vnode n k i -> nth_error qs j = Some q -> q = nval k i.
 
   Lemma leaf_vnode : forall pos, pos < n -> vnode n 0 pos.
   Proof. intros pos Hp. destruct (height_facts n Hok). split; [lia|]. rewrite N.pow_0_r. lia. Qed.
+  Lemma leaf_node_claims : forall idxs, leaf_claims idxs -> node_claims idxs.
+  Proof.
+    intros idxs H idx Hin. destruct (H idx Hin) as [?|(pos & Hp & ->)]; [left; assumption|right].
+    exists 0, pos. split; [apply leaf_vnode; exact Hp|reflexivity].
+  Qed.
 
-  Theorem calc_path_nodes_sound : forall qs idxs sibs resF,
-    leaf_claims idxs ->
+  (* calculatePathNodes, claims at ANY nodes of the tree: if the computed root is the root of l, every claim is true *)
+  Theorem calc_path_nodes_sound_nodes : forall qs idxs sibs resF,
+    node_claims idxs ->
     calc_path_nodes hbranch heqb qs n idxs sibs = Ok resF ->
     lookup resF 2 = Some (mroot hempty hleaf hbranch l) ->
-    claims_true qs idxs.
+    node_claims_true qs idxs.
   Proof.
-    intros qs idxs sibs resF Hleaf Hrun Hroot. unfold calc_path_nodes in Hrun.
+    intros qs idxs sibs resF Hnodes Hrun Hroot. unfold calc_path_nodes in Hrun.
     destruct (Nat.eqb_spec (length qs) (length idxs)) as [Hll|Hll]; cbn [negb] in Hrun; [|discriminate].
     destruct (Nat.eqb (length qs) 0); [discriminate|].
     destruct (init_result heqb qs idxs []) as [res0|] eqn:Ei; [|discriminate].
     destruct (init_result_spec _ _ _ _ Ei) as (_ & B & C).
-    eapply (cpn_sound n Hok hempty hleaf hbranch heqb heqb_eq branch_inj l Hlen (claims_true qs idxs)); [|exact Hrun|exact Hroot].
+    eapply (cpn_sound n Hok hempty hleaf hbranch heqb heqb_eq branch_inj l Hlen (node_claims_true qs idxs)); [|exact Hrun|exact Hroot].
     set (wl := sort_idx (nodup N.eq_dec (filter (fun i => negb (i =? 0)) idxs))).
     assert (Hwl : forall Z, In Z wl <-> In Z idxs /\ Z <> 0).
     { intros Z. unfold wl. rewrite in_sort_idx, nodup_In, filter_In. split; intros [A1 A2]; split; auto; destruct (N.eqb_spec Z 0); cbn in *; congruence. }
-    assert (Hnode : forall Z, In Z idxs -> Z <> 0 -> exists pos, pos < n /\ Z = leaf_idx pos).
-    { intros Z Hin Hne. destruct (Hleaf Z Hin) as [?|?]; [contradiction|assumption]. }
+    assert (Hnode : forall Z, In Z idxs -> Z <> 0 -> exists k i, vnode n k i /\ Z = nidx Hh k i).
+    { intros Z Hin Hne. destruct (Hnodes Z Hin) as [?|?]; [contradiction|assumption]. }
     unfold Inv. repeat split.
     - apply sort_idx_lsorted.
-    - intros Z HZ. apply Hwl in HZ. destruct HZ as [Hin Hne]. destruct (Hnode Z Hin Hne) as (pos & Hp & ->).
-      exists 0, pos. split; [apply leaf_vnode; exact Hp|reflexivity].
-    - intros Z h Hl. destruct (C Z h Hl) as [[h' Hh']|[Hin Hne]]; [cbn in Hh'; discriminate|].
-      destruct (Hnode Z Hin Hne) as (pos & Hp & ->). exists 0, pos. split; [split; [apply leaf_vnode; exact Hp|reflexivity]|left; reflexivity].
+    - intros Z HZ. apply Hwl in HZ. destruct HZ as [Hin Hne]. destruct (Hnode Z Hin Hne) as (k & i & Hv & ->).
+      exists k, i. split; [exact Hv|reflexivity].
     - intros Y c Hc. cbn in Hc. discriminate.
     - intros Z HZ. apply Hwl in HZ. destruct HZ as [Hin Hne]. apply In_nth_error in Hin. destruct Hin as [j Hj].
       assert (Hq : exists q, nth_error qs j = Some q).
@@ -94,29 +141,55 @@ Section Top.
         assert (j < length idxs)%nat by (apply nth_error_Some; congruence).
         lia. }
       destruct Hq as [q Hq]. unfold fv. rewrite (B j Z q Hj Hq Hne). discriminate.
-    - intros Fr j pos q Hj Hp Hq.
-      assert (Hne : leaf_idx pos <> 0) by (pose proof (nidx_ge2 n 0 pos (leaf_vnode pos Hp)); unfold leaf_idx; lia).
-      assert (Hin : In (leaf_idx pos) wl) by (apply Hwl; split; [eapply nth_error_In; exact Hj|exact Hne]).
-      pose proof (Fr _ Hin 0 pos (conj (leaf_vnode pos Hp) eq_refl)) as F.
+    - intros Fr j k i q Hj Hv Hq.
+      assert (Hne : nidx Hh k i <> 0) by (pose proof (nidx_ge2 n k i Hv); lia).
+      assert (Hin : In (nidx Hh k i) wl) by (apply Hwl; split; [eapply nth_error_In; exact Hj|exact Hne]).
+      pose proof (Fr _ Hin k i (conj Hv eq_refl)) as F.
       unfold fv in F. rewrite (B j _ q Hj Hq Hne) in F. inversion F; reflexivity.
   Qed.
 
-  (* VerifyProof: if it accepts against the root of l, every claimed leaf hash is the hash of that leaf *)
-  Theorem proof_sound : forall qs idxs sibs,
+  Theorem calc_path_nodes_sound : forall qs idxs sibs resF,
     leaf_claims idxs ->
-    verify_proof hbranch heqb qs n idxs sibs (mroot hempty hleaf hbranch l) = true ->
-    forall j pos q x, nth_error idxs j = Some (leaf_idx pos) -> nth_error qs j = Some q ->
-                      nth_error l (N.to_nat pos) = Some x -> q = hleaf x.
+    calc_path_nodes hbranch heqb qs n idxs sibs = Ok resF ->
+    lookup resF 2 = Some (mroot hempty hleaf hbranch l) ->
+    claims_true qs idxs.
   Proof.
-    intros qs idxs sibs Hleaf Hv j pos q x Hj Hq Hx.
+    intros qs idxs sibs resF Hleaf Hrun Hroot j pos q Hj Hp Hq.
+    apply (calc_path_nodes_sound_nodes qs idxs sibs resF (leaf_node_claims _ Hleaf) Hrun Hroot j 0 pos q Hj (leaf_vnode pos Hp) Hq).
+  Qed.
+
+  (* VerifyProof, ARBITRARY index list (the indexes come with the proof and are not trusted): if it accepts against the
+     root of l, every claim whose index is the index of a node of the tree carries the value of that node -- all other
+     non-zero indexes were rejected by the index check *)
+  Theorem proof_sound_any : forall qs idxs sibs,
+    verify_proof hbranch heqb qs n idxs sibs (mroot hempty hleaf hbranch l) = true ->
+    node_claims idxs /\ node_claims_true qs idxs.
+  Proof.
+    intros qs idxs sibs Hv.
     unfold verify_proof in Hv. destruct (n =? 0); [discriminate|].
+    destruct (forallb (fun i => (i =? 0) || valid_idx n i) idxs) eqn:Eval; cbn [negb] in Hv; [|discriminate].
+    assert (Hnodes : node_claims idxs).
+    { intros idx Hin. rewrite forallb_forall in Eval. specialize (Eval idx Hin). apply orb_true_iff in Eval.
+      destruct Eval as [E0|E1]; [left; apply N.eqb_eq; exact E0|right; apply (valid_idx_node n Hok); exact E1]. }
+    split; [exact Hnodes|].
     unfold root_of in Hv.
     destruct (calc_path_nodes hbranch heqb qs n idxs sibs) as [resF| |] eqn:Er; try discriminate.
     destruct (lookup resF 2) as [r|] eqn:E2; [|discriminate].
     apply heqb_eq in Hv. subst r.
+    exact (calc_path_nodes_sound_nodes qs idxs sibs resF Hnodes Er E2).
+  Qed.
+
+  (* in particular every LEAF claim is true, whatever other claims accompany it *)
+  Theorem proof_sound : forall qs idxs sibs,
+    verify_proof hbranch heqb qs n idxs sibs (mroot hempty hleaf hbranch l) = true ->
+    forall j pos q x, nth_error idxs j = Some (leaf_idx pos) -> nth_error qs j = Some q ->
+                      nth_error l (N.to_nat pos) = Some x -> q = hleaf x.
+  Proof.
+    intros qs idxs sibs Hv j pos q x Hj Hq Hx.
     assert (Hp : pos < n).
     { unfold len in Hlen. assert (N.to_nat pos < length l)%nat by (apply nth_error_Some; congruence). lia. }
     rewrite <- (nval_leaf hempty hleaf hbranch l pos x Hx).
-    eapply (calc_path_nodes_sound qs idxs sibs resF Hleaf Er E2); eauto.
+    exact (proj2 (proof_sound_any qs idxs sibs Hv) j 0 pos q Hj (leaf_vnode pos Hp) Hq).
   Qed.
+
 End Top.
